@@ -317,6 +317,37 @@ thread_local! {
 }
 pub const LOOP_MARKER: &str = "verif: this command made thousands of store operations without completing (stopped by the harness)";
 
+thread_local! {
+    /// one long-lived helper thread per exploring thread runs the set-up commands of its schedules
+    static SETUP_WORKER: std::cell::RefCell<Option<std::sync::mpsc::Sender<Job>>> = const { std::cell::RefCell::new(None) };
+}
+
+fn setup_worker_run(job: Job) -> bool {
+    SETUP_WORKER.with(|w| {
+        let mut w = w.borrow_mut();
+        if w.is_none() {
+            let (tx, rx) = std::sync::mpsc::channel::<Job>();
+            let ok = std::thread::Builder::new()
+                .name("l2-setup".into())
+                .spawn(move || {
+                    while let Ok(j) = rx.recv() {
+                        j();
+                    }
+                })
+                .is_ok();
+            if !ok {
+                return false;
+            }
+            *w = Some(tx);
+        }
+        w.as_ref().map_or(false, |tx| tx.send(job).is_ok())
+    })
+}
+
+fn setup_worker_abandon() {
+    SETUP_WORKER.with(|w| *w.borrow_mut() = None);
+}
+
 /// upper bound of scheduled store operations in one schedule
 pub const MAX_STEPS: usize = 5000;
 
@@ -352,7 +383,7 @@ pub fn run_schedule(prog: &ConcProg, choices: &[usize], opts: &RunOpts) -> ExecT
     {
         let setup = prog.setup.clone();
         let progress = progress.clone();
-        let spawned = std::thread::Builder::new().name("l2-setup".into()).spawn(move || {
+        let spawned = setup_worker_run(Box::new(move || {
             let mut cx = cx0;
             let mut done = vec![];
             let mut stalled = None;
@@ -375,8 +406,8 @@ pub fn run_schedule(prog: &ConcProg, choices: &[usize], opts: &RunOpts) -> ExecT
                 }
             }
             let _ = tx.send((cx, done, stalled, panicked));
-        });
-        if spawned.is_err() {
+        }));
+        if !spawned {
             trace.stalled = Some("harness: could not start the set-up thread".into());
             return trace;
         }
@@ -395,6 +426,8 @@ pub fn run_schedule(prog: &ConcProg, choices: &[usize], opts: &RunOpts) -> ExecT
             cx
         }
         Err(_) => {
+            // that helper thread is lost; the next schedule gets a new one
+            setup_worker_abandon();
             trace.stalled = Some(format!(
                 "the set-up command {} (run alone, before any client starts) did not return within 10 s - it blocks on itself",
                 progress.lock().unwrap().clone()
